@@ -5,6 +5,7 @@
 #include <cmath>
 #include <fstream>
 #include <map>
+static double cdb(const std::vector<double>& t, int j, int n, double x){ if (n == 0) return (x >= t[j] && x < t[j + 1]) ? 1.0 : 0.0; double r = 0; if (t[j + n] != t[j]) r += (x - t[j]) / (t[j + n] - t[j]) * cdb(t, j, n - 1, x); if (t[j + n + 1] != t[j + 1]) r += (t[j + n + 1] - x) / (t[j + n + 1] - t[j + 1]) * cdb(t, j + 1, n - 1, x); return r; }
 static double Qd(const std::string& s){ size_t p = s.find('/'); return p == std::string::npos ? atof(s.c_str()) : atof(s.substr(0, p).c_str()) / atof(s.substr(p + 1).c_str()); }
 int main(int argc, char** argv){
   std::ifstream in(argv[1]); std::string line, w; unsigned nd = 0, cdim = 0; std::vector<unsigned> ord; std::vector<std::vector<double>> kn; std::vector<double> kern;
@@ -29,8 +30,11 @@ int main(int argc, char** argv){
       if (!t.searchcenters(x.data(), c.data())) continue;
       double real = t.ndsplineeval<double>(x.data(), c.data(), 0);
       // definition: sum over the other dimensions' basis (evaluated by the library on an un-convolved copy) is avoided: use 1-D tables or the first-slice structure
-      if (nd != 1) continue;
-      double want = 0, mag = 0; for (uint64_t i = 0; i < nax[cdim]; i++) { auto it = poly.find({(int)r, (int)i}); if (it == poly.end()) continue; double p = 0, xp = 1; for (double a : it->second) { p += a * xp; xp *= x[cdim]; } want += cf[i] * p; mag += std::fabs(cf[i] * p); }
+      // true value: sum over every coefficient of (independent Cox-de Boor basis of the other dimensions) x (oracle polynomial of the convolved one)
+      double want = 0, mag = 0;
+      for (uint64_t flat = 0; flat < nc; flat++) { uint64_t q = flat; double wgt = 1; int ic = 0; bool zero = false;
+        for (unsigned d = 0; d < nd && !zero; d++) { uint64_t id = q / str[d]; q %= str[d]; if (d == cdim) ic = (int)id; else { double b = cdb(kn[d], (int)id, (int)ord[d], x[d]); if (b == 0) zero = true; wgt *= b; } }
+        if (zero) continue; auto it = poly.find({(int)r, ic}); if (it == poly.end()) continue; double pv = 0, xp = 1; for (double a : it->second) { pv += a * xp; xp *= x[cdim]; } want += cf[flat] * wgt * pv; mag += std::fabs(cf[flat] * wgt * pv); }
       if (!(std::fabs(real - want) <= 1e-4 * (mag + 1e-6))) { printf("interval %zu x=%g: evaluates to %.9g, true convolution %.9g\n", r, x[cdim], real, want); bad = 1; break; } } }
   printf(bad ? "REPRODUCED\n" : "HELD\n"); return bad ? 3 : 0;
 }
